@@ -6,7 +6,7 @@ c_MaxNodes == 4
 c_OpSet == {"clamp", "conj", "mix", "polydiff", "polyprod", "rprod", "sigmoid", "softplus", "ssigmoid"}
 c_LogLeaves == TRUE
 c_EmitMod == 100
-c_EmitRes == 1
+c_EmitRes == 0
 c_LeafKinds == {"const", "ref", "tensor"}
 c_PosLeaves == FALSE
 ====
